@@ -469,8 +469,21 @@ func cmdCfgFmt(args []string) error {
 			emit(rec)
 		}
 	}
+	// every sequence of up to four routes over the channel kinds and their two spellings (prefix form, wrapper block):
+	// what the formatter groups, splits or re-orders must compile to the same routes in the same order
+	seqs := routeSequenceTexts()
+	seqAccepted := 0
+	for i, src := range seqs {
+		if i%*shards != *shard {
+			continue
+		}
+		if rec, ok := roundTrip(src, "routeseq"); ok {
+			seqAccepted++
+			emit(rec)
+		}
+	}
 	emit(map[string]interface{}{"k": "corpus", "structured": structured, "pools": len(pools), "pairs": len(pairs), "pairsAcceptedThisShard": accepted,
-		"blanks": len(blanks), "blanksAcceptedThisShard": blankAccepted})
+		"routeSequences": len(seqs), "routeSequencesAcceptedThisShard": seqAccepted, "blanks": len(blanks), "blanksAcceptedThisShard": blankAccepted})
 	made := 0
 	for tries := 0; made < *n && tries < *n*20; tries++ {
 		src := pick(r, corpus)
@@ -514,4 +527,43 @@ func cmdCfgFmt(args []string) error {
 			"safe": config.VerifIsUnquotedValueSafe(v), "pathSafe": config.VerifIsUnquotedPathSafe(v), "lexfv": lexRecord(fv), "lexfp": lexRecord(fp)})
 	}
 	return nil
+}
+
+func routeSequenceTexts() []string {
+	kinds := []string{"bare", "inbound", "outbound", "internal", "inbound{}", "outbound{}", "internal{}"}
+	unit := func(kind string, n int) string {
+		body := fmt.Sprintf("pull { path /pull/r%d }", n)
+		ch := strings.TrimSuffix(kind, "{}")
+		if ch == "outbound" {
+			body = fmt.Sprintf("deliver \"https://t%d.example.com/x\" { }", n)
+		}
+		route := fmt.Sprintf("/r%d {\n  %s\n}\n", n, body)
+		switch {
+		case kind == "bare":
+			return route
+		case strings.HasSuffix(kind, "{}"):
+			return ch + " {\n" + route + "}\n"
+		}
+		return ch + " " + route
+	}
+	var out []string
+	var rec func(prefix []string)
+	rec = func(prefix []string) {
+		if len(prefix) >= 2 {
+			var b strings.Builder
+			b.WriteString("pull_api { auth token \"raw:t\" }\n")
+			for i, k := range prefix {
+				b.WriteString(unit(k, i+1))
+			}
+			out = append(out, b.String())
+		}
+		if len(prefix) == 4 {
+			return
+		}
+		for _, k := range kinds {
+			rec(append(append([]string{}, prefix...), k))
+		}
+	}
+	rec(nil)
+	return out
 }
